@@ -17,7 +17,13 @@ TPipe ==
                          \cup Flg(R.status # "signaled:14", "probe_died")
        ELSE viol' = viol
               \cup Flg(R.r.got > R.burst, "more_bytes_than_deliveries")
-              \cup Flg(R.fill # "full" /\ R.r.got # R.burst, "not_one_byte_per_delivery")
+              \* a burst of up to 3 fits into every kind of descriptor that was not full: one byte each;
+              \* a long burst may fill the descriptor itself (a pipe holds 65536 bytes, a stream socket
+              \* a few hundred one-byte messages, a datagram socket about ten): from then on the one
+              \* attempt per delivery fails, as the property allows - at least one byte, never more
+              \* than deliveries
+              \cup Flg(R.fill # "full" /\ R.burst <= 3 /\ R.r.got # R.burst, "not_one_byte_per_delivery")
+              \cup Flg(R.fill # "full" /\ R.burst > 3 /\ R.r.got < 1, "no_byte_although_delivered")
               \cup Flg(R.r.removed # 1 \/ R.r.closed # 1, "descriptor_not_closed_on_unregister")
               \cup Flg(R.r.closes_before # 0, "descriptor_closed_while_registered")
               \cup Flg(R.r.closes # 1, "descriptor_not_closed_exactly_once")
@@ -49,7 +55,8 @@ TIterPipe ==
        ELSE viol' = viol
               \cup Flg(R.r.tokens # <<"delivered">>, "deliveries_did_not_return")
               \cup Flg(R.r.got > R.burst, "more_bytes_than_deliveries")
-              \cup Flg(R.fill = "empty" /\ R.r.got # R.burst, "not_one_byte_per_delivery")
+              \cup Flg(R.fill = "empty" /\ R.burst <= 3 /\ R.r.got # R.burst, "not_one_byte_per_delivery")
+              \cup Flg(R.fill = "empty" /\ R.burst > 3 /\ R.r.got < 1, "no_byte_although_delivered")
               \cup Flg(R.r.yielded # 1, "delivered_signal_not_reported")
 
 \* Tear-down of an iterator instance (backend.rs Handle / DeliveryState): the write end is dropped
